@@ -12,6 +12,11 @@ are those dicts.  Contracts evaluated on the real functions:
   subset        entries[mask] / entries[index] / entries[slice] decode to the selected records
   write         bnp.open(y.bam,'w').write(whole | filtered | reordered | sliced | chunk stream | two writes):
                 y.bam decodes (independent decoder and the library) to the selected records, same header, EOF block
+  history       operation histories on ONE decoded table (lazy, lazy=False, or the list of chunks): every sequence of 1..2
+                (thorough ..3) derived computations - alignment_to_interval, count_reference_length, interval of a subset,
+                column arithmetic, str/repr/tolist, column reads, subset reads, concatenation, filtered write - and then
+                the table's nine fields, read directly and through subsets, still == the records (and a fresh read too);
+                results of the interval / reference-length / write steps == the spec values each time
 
 Scope: see `col.bounds` / `rule` in run().
 """
@@ -183,6 +188,49 @@ def gen_sweep(kind, arg=0):
     return {"refs": refs, "records": recs, "payload": 1000 if len(recs) > 100 else PAYLOADS[len(recs) % 4]}
 
 
+def _long_record(i, n, **kw):
+    seq = "".join(ref.SEQ_CODE[(k * 7 + k // 16 + i) % 16] for k in range(n))
+    qual = [(k * 5 + k // 94 + 3 * i) % 94 for k in range(n)]
+    return _base(i, name="long%d_%d" % (i, n), seq=seq, qual=qual, **kw)
+
+
+def gen_long_reads(l1, l2):
+    """short reads around two long reads (l_seq at / beyond 16 bits), full 16-letter code, soft clip, tags, one unmapped"""
+    recs = [_base(0, seq="ACGTN", qual=[10, 20, 30, 40, 41], cigar=[["M", 5]], tags=mk_tags(4, 1)),
+            _long_record(1, l1, ref=1, pos=5000, flag=16, mapq=60, cigar=[["S", 1], ["M", l1 - 1]]),
+            _base(2, flag=99, seq="GATTACAN", qual=[1, 2, 3, 4, 5, 6, 7, 8], cigar=[["M", 3], ["I", 1], ["M", 4]]),
+            _long_record(3, l2, ref=1, pos=9000, mapq=3, cigar=[["M", l2]], tags=mk_tags(7, 3)),
+            _base(4, ref=-1, pos=-1, flag=4, mapq=0, cigar=[], seq="KDB", qual=[93, 0, 50])]
+    return {"refs": [["chr1", 200000000], ["chrL", 90000000]], "records": recs, "payload": 0xFF00}
+
+
+def gen_history(k):
+    """files for the operation histories: CIGARs in which the operations that do NOT consume the reference (I S H P)
+    carry distinctive lengths, next to empty CIGARs, unmapped records and both strands"""
+    def sq(n, i=0):
+        return {"seq": "".join(ref.SEQ_CODE[(3 * i + 5 * j + 1) % 16] for j in range(n)), "qual": [(7 * j + i) % 94 for j in range(n)]}
+    if k == 0:
+        recs = [_base(0, cigar=[["M", 10]], **sq(10)),
+                _base(1, ref=1, pos=2000, flag=16, mapq=60, cigar=[["S", 4], ["M", 6], ["I", 2], ["M", 5], ["S", 3]], **sq(20, 1)),
+                _base(2, pos=5000, flag=99, mapq=40, cigar=[["H", 5], ["M", 4], ["N", 3000], ["M", 3], ["D", 2], ["=", 2], ["X", 1], ["P", 1], ["I", 1]],
+                      tags=mk_tags(5, 2), **sq(11, 2)),
+                _base(3, ref=-1, pos=-1, flag=4, mapq=0, cigar=[], **sq(7, 3)),
+                _base(4, ref=1, pos=77, flag=147, mapq=1, cigar=[["S", 2], ["I", 5], ["S", 2]], **sq(9, 4)),
+                _base(5, pos=0, flag=0x800 | 16, cigar=[], **sq(0))]
+    elif k == 1:     # every record holds all nine operations, rotated, every length different
+        recs = [_base(i, ref=i % 2, flag=16 * (i % 2), cigar=[[OPS[(i + j) % 9], 1 + 10 * i + j] for j in range(9)],
+                      tags=mk_tags([0, 4, 7][i % 3], i), **sq(i, i)) for i in range(9)]
+    elif k == 2:     # a single record
+        recs = [_base(0, ref=1, flag=16, cigar=[["S", 3], ["M", 2], ["I", 70000], ["M", 1], ["H", 9]], **sq(5))]
+    elif k == 3:     # only non-consuming operations / only consuming operations, alternating
+        recs = [_base(i, ref=i % 2, flag=16 * ((i // 2) % 2), cigar=[[("ISHP" if i % 2 else "MDN=X")[(i + j) % (4 if i % 2 else 5)], CLEN[(i + j) % 9]]
+                                                                   for j in range(1 + i % 4)], **sq(i % 5, i)) for i in range(12)]
+    else:            # many records of mixed shapes
+        recs = [mk_record(i, 1 + i % 6, i % 5, i % 8, [0, 5][i % 2], 3, salt=k) for i in range(40)]
+        return {"refs": REFSETS[3], "records": recs, "payload": PAYLOADS[k % 4]}
+    return {"refs": REFSETS[2], "records": recs, "payload": PAYLOADS[k % 4]}
+
+
 def gen_chunk(k, n):
     """n records of unequal sizes for the chunk-size sweep"""
     S = [(1, 0, 0, 0), (2, 1, 1, 0), (3, 2, 2, 3), (4, 4, 7, 0), (5, 3, 5, 2), (8, 1, 6, 1), (1, 0, 3, 0), (13, 2, 8, 5),
@@ -210,7 +258,8 @@ def gen_random(rng, big=False):
     return {"refs": refs, "records": recs, "payload": rng.choice(PAYLOADS + [5, 33, 4096])}
 
 
-GENS = {"grid": gen_grid, "single": gen_single, "sweep": gen_sweep, "chunk": gen_chunk}
+GENS = {"grid": gen_grid, "single": gen_single, "sweep": gen_sweep, "chunk": gen_chunk, "long_reads": gen_long_reads,
+        "history": gen_history}
 
 
 def build_file(spec):
@@ -539,8 +588,190 @@ def c_write(col, bc, param):
     compare(col, got, select(bc.exp, idx), prefix + ":readback", case, one_sig=bc.one_sig)
 
 
+
+# --------------------------------------------------------------------------------- operation histories on one table
+H_OPS = ["interval", "reflen", "sub_interval", "arith", "text", "columns", "subset", "concat", "write"]
+H_MODES = ["lazy", "eager", "chunked"]
+AUX_EXC = set()
+MAIN = ("ref", "pos", "name", "mapq", "flag", "cigar", "seq", "qual")
+
+
+def iv_observe(col, parts, prefix, case, bc):
+    got = {}
+    for f in IV_FIELDS:
+        def get(f=f):
+            out = []
+            for p in parts:
+                v = pyval(getattr(p, f))
+                out.extend(list(v) if not isinstance(v, str) else list(v))
+            return ["".join(x) if isinstance(x, list) else x for x in out]
+        got[f] = guard(col, get, prefix + ":" + f, case, bc, f == "chromosome")
+    return got
+
+
+def h_apply(col, bc, e, exp, recs, op, case):
+    """ONE derived computation on the table `e` (none of them is an in-place operation of the caller); the results
+    that the property defines (reference interval, reference length, written records) are checked every time"""
+    import numpy as np
+    import bionumpy as bnp
+    from bionumpy.alignments import alignment_to_interval
+    from bionumpy.alignments.cigar import count_reference_length
+    n = len(recs)
+    mask = [i % 2 == 0 for i in range(n)]
+    idx = [i for i in range(n) if mask[i]]
+    rp = "history:result:" + op
+
+    def aux(op, fns):
+        # computations whose RESULT the property says nothing about: only their effect on the table matters, so an
+        # exception of theirs is not a failure of C16 (noted in bounds["history_aux_step_exceptions"])
+        for fn in fns:
+            try:
+                fn()
+            except Exception as ex:
+                AUX_EXC.add(op + ":" + type(ex).__name__)
+    if op == "interval":
+        iv = alignment_to_interval(e)
+        compare(col, iv_observe(col, [iv], rp, case, bc), exp, rp, case, fields=IV_FIELDS, one_sig=bc.one_sig)
+    elif op == "reflen":
+        got = pyval(count_reference_length(e.cigar_op, e.cigar_length))
+        want = [b - a for a, b in zip(exp["start"], exp["stop"])]
+        col.check(got == want, bc.one_sig or rp + ":wrong-value", case, first_diff(got, want))
+    elif op == "sub_interval":
+        iv = alignment_to_interval(e[np.array(mask, dtype=bool)])
+        compare(col, iv_observe(col, [iv], rp, case, bc), select(exp, idx), rp, case, fields=IV_FIELDS, one_sig=bc.one_sig)
+    elif op == "arith":
+        # out-of-place arithmetic, comparisons and reductions on every column
+        aux(op, [lambda: e.position + 1, lambda: e.position - e.position, lambda: e.flag & np.uint16(16), lambda: e.flag | np.uint16(1),
+                 lambda: e.mapq * 2, lambda: -(e.position), lambda: e.cigar_length * 2, lambda: e.cigar_length + 1, lambda: e.cigar_length >> 1,
+                 lambda: e.cigar_length.sum(axis=-1), lambda: np.cumsum(e.cigar_length, axis=-1), lambda: e.quality + 33,
+                 lambda: e.quality.sum(axis=-1), lambda: e.quality > 20, lambda: e.sequence == "A", lambda: e.cigar_op == "S",
+                 lambda: e.cigar_op != "M", lambda: e.sequence.lengths, lambda: e.name.lengths, lambda: e.cigar_length.ravel() * 0,
+                 lambda: e.quality.ravel() + 1, lambda: np.where(e.flag & np.uint16(16), 1, 0), lambda: np.argsort(e.position),
+                 lambda: np.sort(e.mapq), lambda: bnp.count_encoded(e.sequence, axis=-1)])
+    elif op == "text":
+        aux(op, [lambda: str(e), lambda: repr(e.cigar_length), lambda: str(e.cigar_op), lambda: str(e.sequence[:3]),
+                 lambda: str(e.quality[:3]), lambda: e.tolist() if n <= 100 else None])
+    elif op == "columns":
+        aux(op, [lambda f=f: pyval(getattr(e, f)) for f in FIELDS])
+    elif op == "subset":
+        for sel in (lambda: e[np.array(list(range(n))[::-1], dtype=int)], lambda: e[np.array(mask, dtype=bool)], lambda: e[1:], lambda: e[::2]):
+            aux(op, [lambda f=f: pyval(getattr(sel(), f)) for f in FIELDS])
+    elif op == "concat":
+        aux(op, [lambda f=f: pyval(getattr(np.concatenate([e, e[np.array(mask, dtype=bool)]]), f)) for f in FIELDS])
+    elif op == "write":
+        out = os.path.join(bc.tmp, "hist_out.bam")
+        if os.path.exists(out):
+            os.unlink(out)
+        with bnp.open(out, "w") as f:
+            f.write(e[np.array(mask, dtype=bool)])
+        dec = col.guarded(lambda: ref.decode_bam(open(out, "rb").read()), rp + ":output-not-decodable-per-spec", case)
+        if dec is not None:
+            g = [[r[k] for k in MAIN] for r in dec[2]]
+            w = [[ref.normalise(recs[i])[k] for k in MAIN] for i in idx]
+            col.check(g == w, rp + ":records-differ", case, "%d records written, %d expected; %s" % (len(g), len(w), first_diff(g, w)))
+    else:
+        raise ValueError(op)
+
+
+def h_tables(bc, mode):
+    """the table(s) a history works on: [(entries, indices of its records in the file)]"""
+    import bionumpy as bnp
+    if mode == "chunked":
+        chunks = read_chunked(bc, max(max(bc.sizes), sum(bc.sizes) // 4 + 1))      # about four chunks
+        out, a = [], 0
+        for ch in chunks:
+            out.append((ch, list(range(a, a + len(ch)))))
+            a += len(ch)
+        return out
+    with bnp.open(bc.path, **({"lazy": False} if mode == "eager" else {})) as f:
+        return [(f.read(), list(range(len(bc.records))))]
+
+
+def h_run(col, bc, mode, ops):
+    """the history `ops` on freshly read table(s), then the contract: the table is what it was.  Failures of the final
+    contract are attributed to the LAST step (c_history looks for the shortest failing prefix)."""
+    import numpy as np
+    case = bc.case("history", {"mode": mode, "ops": list(ops)})
+    tables = col.guarded(lambda: h_tables(bc, mode), "history:read:" + mode, case)
+    if tables is None:
+        return
+    if not col.check(sum(len(ix) for _, ix in tables) == len(bc.records), bc.one_sig or "history:read:" + mode + ":record-count", case,
+                     "%r records in the tables, file has %d" % ([len(ix) for _, ix in tables], len(bc.records))):
+        return
+    for op in ops:
+        for e, ix in tables:
+            col.guarded(lambda: h_apply(col, bc, e, select(bc.exp, ix), [bc.records[i] for i in ix], op, case), "history:step:" + op, case)
+    last = ops[-1]
+    for e, ix in tables:
+        exp = select(bc.exp, ix)
+        n = len(ix)
+        p = "history:after-" + last + ":table-changed:direct"
+        compare(col, observe(col, e, p, case, bc), exp, p, case, one_sig=bc.one_sig)
+        p = "history:after-" + last + ":table-changed:subset"
+        for sel in (["index", list(range(n))[::-1]], ["mask", [i % 2 == 1 for i in range(n)]], ["slice", [None, None, 2]]):
+            s = col.guarded(lambda: lib_select(e, sel), p, case)
+            if s is not None:
+                compare(col, observe(col, s, p, case, bc), select(exp, apply_sel(ix, sel)), p, case, one_sig=bc.one_sig)
+    # a table read afresh afterwards is the file's, too (no state shared between tables was altered)
+    p = "history:after-" + last + ":fresh-read-differs"
+    fresh = col.guarded(lambda: h_tables(bc, "lazy")[0][0], p, case)
+    if fresh is not None:
+        compare(col, observe(col, fresh, p, case, bc), bc.exp, p, case, one_sig=bc.one_sig)
+
+
+def c_history(col, bc, param):
+    """param: {"mode": "lazy" | "eager" | "chunked", "ops": [op, ...]}"""
+    mode, ops = param["mode"], list(param["ops"])
+    full = Collector("C16", col.tier, col.seed, "scratch")
+    h_run(full, bc, mode, ops)
+    if not full.failures:
+        return
+    found = full
+    for k in range(1, len(ops)):
+        part = Collector("C16", col.tier, col.seed, "scratch")
+        h_run(part, bc, mode, ops[:k])
+        if part.failures:
+            found = part
+            break
+    for f in found.failures:
+        col.fail(f["signature"], f["case"], f["message"])
+
+
+def history_params(max_len, modes=H_MODES, first=None):
+    for mode in modes:
+        for L in range(1, max_len + 1):
+            for seq in itertools.product(H_OPS, repeat=L):
+                if first is not None and L > 1 and seq[0] not in first:
+                    continue
+                if mode == "eager" and "write" in seq:
+                    continue      # precondition of BAM writing: the lazily read table (it carries the record bytes and the file header)
+                yield {"mode": mode, "ops": list(seq)}
+
+
+def history_specs(tier):
+    """(spec, longest history, modes, restriction of the first step for histories longer than 1)"""
+    producers = ["interval", "reflen", "sub_interval"]
+    if tier == "quick":
+        return [({"gen": ["history", 0]}, 2, ["lazy", "eager"], None), ({"gen": ["history", 0]}, 2, ["chunked"], producers),
+                ({"gen": ["history", 1]}, 2, ["lazy", "eager"], producers),
+                ({"gen": ["history", 2]}, 1, H_MODES, None),
+                ({"gen": ["history", 3]}, 2, ["lazy"], producers),
+                ({"gen": ["history", 4]}, 1, H_MODES, None),
+                ({"gen": ["sweep", "cigar2", 0]}, 1, ["lazy", "eager"], None),
+                ({"gen": ["sweep", "fixed", 0]}, 1, H_MODES, None),
+                ({"gen": ["long_reads", 65535, 70001]}, 1, ["lazy"], producers)]
+    out = [({"gen": ["history", 0]}, 3, ["lazy"], None), ({"gen": ["history", 0]}, 2, ["eager", "chunked"], None)]
+    out += [({"gen": ["history", k]}, 2, H_MODES, None if k <= 2 else producers) for k in (1, 2, 3, 4, 5)]
+    out += [({"gen": ["sweep", kind, 0]}, 2, ["lazy", "eager"], producers) for kind in ("cigar1", "cigar2", "fixed", "flag")]
+    out += [({"gen": ["sweep", "refs", 3]}, 2, H_MODES, producers), ({"gen": ["sweep", "ncigar", 60]}, 1, H_MODES, None),
+            ({"gen": ["sweep", "cigar3", 0]}, 1, ["lazy", "eager"], None),
+            ({"gen": ["long_reads", 65535, 70001]}, 1, H_MODES, None), ({"gen": ["long_reads", 65536, 131074]}, 2, ["lazy"], producers)]
+    out += [({"gen": ["chunk", k, 6]}, 2, H_MODES, producers) for k in range(4)]
+    return out
+
+
 CONTRACTS = {"read_whole": c_read_whole, "interval": c_interval, "read_chunks": c_read_chunks, "subset": c_subset,
-             "write": c_write}
+             "write": c_write, "history": c_history}
 
 
 def evaluate(col, bc, contract, param, nontrivial=True):
@@ -637,6 +868,10 @@ def file_specs(tier):
     """(spec, chunks, sels) for the exhaustive part"""
     quick = tier == "quick"
     out = []
+    # long reads: two records with l_seq at / beyond 16 bits (and 17 bits) among short ones, both parities
+    for l1, l2 in ([(65535, 65536), (70001, 131074)] if quick else
+                   [(65535, 65536), (70001, 131074), (65534, 65537), (131071, 131072), (99999, 262145), (65536, 65535)]):
+        out.append(({"gen": ["long_reads", l1, l2]}, "min", "few"))
     # value sweeps
     sw = [("fixed", 0), ("flag", 0), ("mapq", 0), ("pos", 0), ("namelen", 0), ("seq1", 0), ("seq2", 0), ("seqlen", 40 if quick else 300),
           ("qual", 0), ("cigar1", 0), ("cigar2", 0), ("ncigar", 20 if quick else 60), ("tags", 20 if quick else 40),
@@ -665,6 +900,7 @@ def file_specs(tier):
 
 def run(tier="quick", seed=0):
     ref.selfcheck()
+    AUX_EXC.clear()
     quick = tier == "quick"
     col = Collector("C16", tier, seed,
                     "exhaustive part: BAMs from the independent spec-level encoder (rtc/refmodels/bam.py): (a) value sweeps - every flag bit, "
@@ -676,7 +912,9 @@ def run(tier="quick", seed=0):
                     "chunk-sweep files, EVERY chunk size from the largest record to past the end; (d) for files of <= 4 records every boolean "
                     "mask, every permutation, every slice, whole, two-call and streamed writes. Then seeded random records above the bounds "
                     "(names to 254, 0..8 ops, l_seq to 40/400, tags to 20 bytes, 1..8 records). distinct = (file generator args, contract, "
-                    "parameter); non-trivial = every case except 0-record files")
+                    "parameter); non-trivial = every case except 0-record files. Before all that: operation histories on one decoded table "
+                    "(every sequence of derived computations up to the stated length, then the table must still decode to the records) and "
+                    "files with two long reads (l_seq >= 65535) under all contracts")
     col.bounds = {"references": "0..3 (+300 in one header case)", "read_name_len": "1..254",
                   "n_cigar_op": "0..4 grid, 0..%d sweep, 255, 16383, 16384%s" % (20 if quick else 60, "" if quick else ", 256, 65535"),
                   "cigar_ops": "all nine; lengths " + str(CLEN), "l_seq": "0..%d grid, 0..%d sweep, 70001" % (7 if quick else 9, 40 if quick else 300),
@@ -684,7 +922,21 @@ def run(tier="quick", seed=0):
                   "chunk_size": "every size in [largest record, total+2] for chunk-sweep files; record-boundary sizes otherwise",
                   "write": "whole, every mask / permutation / slice for n<=4, two calls, chunk stream", "bgzf_block_payload": PAYLOADS,
                   "random_files": "quick 40; thorough until ~420 s"}
+    col.bounds["long_reads"] = "files of 5 records, two of them with l_seq in " + ("{65535, 65536}, {70001, 131074}" if quick else
+                               "{65535, 65536}, {70001, 131074}, {65534, 65537}, {131071, 131072}, {99999, 262145}") + ": all contracts"
+    col.bounds["history"] = ("steps " + str(H_OPS) + "; every history of length 1..%d on the main history file, 1..2 (all, or first step an "
+                             "interval / reference-length computation) or 1 on %d more files; tables: lazy, lazy=False, list of chunks"
+                             % (2 if quick else 3, len(history_specs(tier)) - 1))
     with TmpDir() as tmp:
+        # operation histories on one table
+        for spec, max_len, modes, first in history_specs(tier):
+            bc = BamCase(spec, tmp)
+            for param in history_params(max_len, modes, first):
+                evaluate(col, bc, "history", param)
+            if col.out_of_time():
+                break
+        col.bounds["history_part_wall_s"] = round(time.time() - col.t0, 1)
+        col.bounds["history_aux_step_exceptions"] = sorted(AUX_EXC)
         for spec, chunks, sels in file_specs(tier):
             bc = BamCase(spec, tmp)
             standard(col, bc, chunks, sels, quick=quick)
@@ -693,7 +945,7 @@ def run(tier="quick", seed=0):
         # sampling above the bounds
         t_exh = time.time()
         i = 0
-        limit = 55 if quick else 420
+        limit = 60 if quick else 420
         while not col.out_of_time():
             if quick and i >= 40:
                 break
